@@ -28,9 +28,10 @@ Record xclass := mk_xclass {
   xk_anyattr : option fns;
   xk_text : option ftype;
   xk_xsi : list (name * nat);                     (* XmlContext.find_subclass(this class, qname) *)
-  xk_nillable : bool
+  xk_nillable : bool;
+  xk_bases : list nat                             (* dataclass ancestors *)
 }.
-Definition empty_class : xclass := mk_xclass (mk_xmeta [] false false) [] [] [] None None [] false.
+Definition empty_class : xclass := mk_xclass (mk_xmeta [] false false) [] [] [] None None [] false [].
 
 (* ---------------------------------------------------------------- not retyped: schema simple type against field types *)
 Definition py_str : str := [115;116;114]%N.
@@ -102,7 +103,10 @@ Definition type_compat (t : stype) (f : ftype) : bool :=
   | STAtom b en ws => negb (ft_tokens f) && atom_compat b en ws f
   | STList (STAtom b en ws) => ft_tokens f && atom_compat b en ws (mk_ftype (ft_types f) (ft_format f) false (ft_enum f))
   | STList i => ft_tokens f && subset_str (member_pys i) (ft_types f) && subset_str (ft_types f) (member_pys i)
-  | STUnion ms => negb (ft_tokens f) && subset_str (member_pys t) (ft_types f) && subset_str (ft_types f) (member_pys t)
+  | STUnion ms =>
+      negb (ft_tokens f)
+      && (list_eqb str_eqb (ft_types f) [py_str]            (* kept as text: nothing is reinterpreted *)
+          || (subset_str (member_pys t) (ft_types f) && subset_str (ft_types f) (member_pys t)))
   end.
 
 (* the union is read by converter priority, not by member order: is the first member that accepts every
@@ -142,7 +146,11 @@ Definition afield_canon (t : stype) (f : afield) : afield :=
 Definition attr_decl_canon (x : xattr) : attr_decl :=
   let t := xa_type x in
   mk_attr_decl (xa_name x)
-               (match xa_use x with AFixed v => AFixed (canon_or_ws t v) | ADefault v => ADefault (canon_or_ws t v) | u => u end)
+               (match xa_use x with
+                | AFixed v => AFixed (canon_or_ws t v)
+                | ADefault v => if is_list_type t && ws_only v then AImplied      (* default = the empty list: as if absent *)
+                                else ADefault (canon_or_ws t v)
+                | u => u end)
                (match t with STAtom _ (Some vals) _ => Some (map (canon_or_ws t) vals) | _ => None end).
 
 Definition attrs_check (d : tdef) (k : xclass) : bool :=
@@ -198,7 +206,9 @@ Definition decl_closed (p : program) (k : xclass) (x : xdecl) : bool :=
                               || match find (fun e => name_eqb (fst e) (fst qt)) (xk_xsi (get_class p c)) with
                                  | Some e => pair_mem p (snd qt) (snd e)
                                  | None => false end) (td_derived d)
-    | None, _ => false
+    | None, TAnyType =>                                 (* an empty complex type bound to `object`: generic and lossless *)
+        match td_content d, td_attrs d, td_anyattr d with XCEmpty, [], None => true | _, _, _ => false end
+    | None, TPrim _ => false
     end) ts.
 
 (* per pair: [content; attributes; attribute types; text type; closure; order_safe; order claimed by the property; cm well-formed] *)
@@ -329,8 +339,17 @@ Definition alias_of (p : program) (t : nat) (q : name) : bool :=
   match class_of_type p t with
   | None => false
   | Some c =>
+      let related := fun a b => (a =? b) || existsb (Nat.eqb b) (xk_bases (get_class p a))
+                                 || existsb (Nat.eqb a) (xk_bases (get_class p b)) in
       existsb (fun l => let prims := filter (fun e => match snd e with TPrim _ => true | _ => false end) l in
-                        (2 <=? length prims) && existsb (fun e => name_eqb (fst e) q) prims)
+                        ((2 <=? length prims) && existsb (fun e => name_eqb (fst e) q) prims)
+                        || ((2 <=? length l)
+                            && existsb (fun e => name_eqb (fst e) q && match snd e with TPrim f => ft_tokens f | _ => false end) l)
+                        || existsb (fun e => name_eqb (fst e) q
+                                             && match snd e with
+                                                | TClass a => existsb (fun e' => negb (name_eqb (fst e') q)
+                                                                                 && match snd e' with TClass b => related a b | _ => false end) l
+                                                | _ => false end) l)
               (xk_targets (get_class p c))
   end.
 
@@ -371,6 +390,30 @@ Definition doc_infoset_ok (pd : program * doc) : bool :=
   | None => true
   | Some o => ndoc_eqb (S (fuel_of (d_in d))) (p_schema p) (type_ordered p) (norm_doc p (d_in d)) (norm_doc p o)
   end.
+
+(* the same, not claiming order below xs:all groups (any order is valid there, the serializer uses field order) *)
+Fixpoint xhas_all (c : xcm) : bool :=
+  match c with
+  | XAll _ => true
+  | XSeq l | XChoice l => existsb xhas_all l
+  | XOcc _ _ c => xhas_all c
+  | _ => false
+  end.
+Fixpoint has_dup (l : list name) : bool :=
+  match l with [] => false | x :: r => existsb (name_eqb x) r || has_dup r end.
+
+Definition doc_infoset_ok_excl (excl : xcm -> bool) (pd : program * doc) : bool :=
+  let (p, d) := pd in
+  match d_out d with
+  | None => true
+  | Some o => ndoc_eqb (S (fuel_of (d_in d))) (p_schema p)
+                       (fun ty => type_ordered p ty
+                                  && negb (match ty with Some t => excl (tdef_cm (get_type (p_schema p) t)) | None => false end))
+                       (norm_doc p (d_in d)) (norm_doc p o)
+  end.
+Definition doc_infoset_ok_noall := doc_infoset_ok_excl xhas_all.
+(* ... nor where an element name occurs at two places of the content model (one field holds both) *)
+Definition doc_infoset_ok_nodup := doc_infoset_ok_excl (fun c => xhas_all c || has_dup (xalphabet c)).
 
 (* the same, order ignored everywhere: separates "something lost / invented / retyped" from "order changed" *)
 Definition doc_infoset_unordered_ok (pd : program * doc) : bool :=
@@ -481,9 +524,12 @@ Fixpoint ndoc_diff (fuel : nat) (s : schema) (a b : ndoc) : list name :=
       end
   end.
 
+(* where the difference is; when no set of known deviations explains it, where what remains under all of them is *)
 Definition doc_diff (pd : program * doc) : list name :=
   let (p, d) := pd in
   match d_out d with
   | None => []
-  | Some o => ndoc_diff (S (fuel_of (d_in d))) (p_schema p) (norm_doc p (d_in d)) (norm_doc p o)
+  | Some o =>
+      let qk := match doc_quirks pd with [9] => quirk_of p [1; 2; 3; 4] | _ => no_quirks end in
+      ndoc_diff (S (fuel_of (d_in d))) (p_schema p) (norm_doc_q qk p (d_in d)) (norm_doc_q qk p o)
   end.
